@@ -3272,6 +3272,7 @@ class MaybeAlignPartitions(Expr):
                 dfs[0].divisions == df.divisions and df.known_divisions for df in dfs
             )
             or len(self.divisions) == 2
+            and self.divisions[0] is None
         ):
             return self._expr_cls(*self.operands)
         elif self.divisions[0] is None:
@@ -3434,6 +3435,7 @@ class OpAlignPartitions(MaybeAlignPartitions):
                 dfs[0].divisions == df.divisions and df.known_divisions for df in dfs
             )
             or len(self.divisions) == 2
+            and self.divisions[0] is None
         ):
             return self._op(self.frame, self.op, self.other, *self.operands[3:])
         elif self.divisions[0] is None:
